@@ -63,12 +63,12 @@ type c37Chain struct {
 	engine consensus.Engine
 }
 
-func (c *c37Chain) Config() *params.ChainConfig                     { return c.cfg }
-func (c *c37Chain) CurrentHeader() *types.Header                    { return nil }
-func (c *c37Chain) GetHeader(common.Hash, uint64) *types.Header     { return nil }
-func (c *c37Chain) GetHeaderByNumber(uint64) *types.Header          { return nil }
-func (c *c37Chain) GetHeaderByHash(common.Hash) *types.Header       { return nil }
-func (c *c37Chain) Engine() consensus.Engine                        { return c.engine }
+func (c *c37Chain) Config() *params.ChainConfig                 { return c.cfg }
+func (c *c37Chain) CurrentHeader() *types.Header                { return nil }
+func (c *c37Chain) GetHeader(common.Hash, uint64) *types.Header { return nil }
+func (c *c37Chain) GetHeaderByNumber(uint64) *types.Header      { return nil }
+func (c *c37Chain) GetHeaderByHash(common.Hash) *types.Header   { return nil }
+func (c *c37Chain) Engine() consensus.Engine                    { return c.engine }
 
 var c37Forks = []ep.Fork{ep.Cancun, ep.Prague, ep.Osaka, ep.Amsterdam}
 
@@ -274,15 +274,16 @@ func (c *c37Call) allowanceCap(e *c37Env, balance *big.Int) uint64 {
 // ---- verdict -----------------------------------------------------------------------
 
 type c37Outcome struct {
-	cap, est  uint64
-	okCap     bool
-	estErr    error
-	peakAtEst uint64
-	usedAtCap uint64
-	tr        c37Trace
-	belowOK   bool // exec(est-1) succeeded (only evaluated when an estimate exists)
-	ratio     float64
-	capErr    string
+	mutatedState bool
+	cap, est     uint64
+	okCap        bool
+	estErr       error
+	peakAtEst    uint64
+	usedAtCap    uint64
+	tr           c37Trace
+	belowOK      bool // exec(est-1) succeeded (only evaluated when an estimate exists)
+	ratio        float64
+	capErr       string
 }
 
 // c37Judge runs the estimator and the oracle. strict: the caller vouches that the
@@ -306,7 +307,9 @@ func c37Judge(fail func(format string, args ...any), e *c37Env, c *c37Call, noGa
 		}
 	}
 
-	opts := &Options{Config: e.cfg, Chain: e.chain, Header: e.header, State: e.state, ErrorRatio: c.errRatio}
+	// Estimate gets its own copy of the pre-state, as the RPC layer hands it a throw-away state:
+	// whatever Estimate does to that object can only show through its own results.
+	opts := &Options{Config: e.cfg, Chain: e.chain, Header: e.header, State: e.state.Copy(), ErrorRatio: c.errRatio}
 	emsg := c.message(e.header.BaseFee)
 	est, _, err := Estimate(context.Background(), emsg, opts, c.gasCap)
 	out.est, out.estErr = est, err
@@ -314,7 +317,12 @@ func c37Judge(fail func(format string, args ...any), e *c37Env, c *c37Call, noGa
 		fail("Estimate left call.GasLimit = %d, was %d", emsg.GasLimit, c.gasArg)
 	}
 	if got := e.state.GetBalance(evmx.Origin).ToBig(); got.Cmp(balance) != 0 {
-		fail("VERIF-HARNESS-BUG: pre-state mutated (balance %v -> %v)", balance, got)
+		// Estimate wrote through a pointer it got from the state (state copies share balance
+		// pointers, geth itself never mutates them in place). Not a clause of the property by
+		// itself: undo it so that the harness's own executions below see the true pre-state; the
+		// effect on Estimate's result is judged by (A)-(E).
+		e.state.SetBalance(evmx.Origin, uint256.MustFromBig(balance), tracing.BalanceChangeUnspecified)
+		out.mutatedState = true
 	}
 
 	// (A)
